@@ -103,10 +103,10 @@ example : (DV.create (fun _ => 5) 7 []).d = 7 := by decide
 /-! ## EvictionState -/
 
 /-- **Exactly the events of slots up to the last evicted slot have triggered**: after every history
-of `EvictionEvent` / `Evict` calls (in any order, also evicting backwards), the real event handed out
+of `EvictionEvent` / `Evict` calls (in any order, also evicting backwards, slots of either sign), the real event handed out
 for a slot has triggered iff the slot is at or below the last evicted slot.  (For such slots new
 requests get the shared pre-triggered event: `C14_eviction_pre`.) -/
-theorem C14_eviction (ops : List EVOp) (slot : Nat) (hh : slot ∈ (EV.init.run ops).handed) :
+theorem C14_eviction (ops : List EVOp) (slot : Int) (hh : slot ∈ (EV.init.run ops).handed) :
     slot ∈ (EV.init.run ops).trig ↔ (EV.init.run ops).evicted slot = true := by
   have h := EV.inv_run _ ops EV.inv_init
   constructor
@@ -122,7 +122,7 @@ theorem C14_eviction_unique (ops : List EVOp) : (EV.init.run ops).handed.Nodup :
   (EV.inv_run _ ops EV.inv_init).nodup
 
 /-- `EvictionEvent` hands out the pre-triggered event exactly for evicted slots. -/
-theorem C14_eviction_pre (s : EV) (slot : Nat) : (s.step (.event slot)).2 = .pre ↔ s.evicted slot = true := by
+theorem C14_eviction_pre (s : EV) (slot : Int) : (s.step (.event slot)).2 = .pre ↔ s.evicted slot = true := by
   simp only [EV.step]
   split <;> rename_i h
   · simp [h]
@@ -131,54 +131,35 @@ theorem C14_eviction_pre (s : EV) (slot : Nat) : (s.step (.event slot)).2 = .pre
 example : (EV.init.run [.event 3, .event 0, .evict 0, .event 0, .evict 5, .event 9, .evict 2]).handed = [9, 0, 3] := by
   decide
 
-/-! ### `evict`'s probing loop on a fixed-width slot type (every type of `EvictionStateSlotType`) -/
+/-- `evict` triggers exactly the registered events of the slots up to the evicted one — whatever their sign, and
+whatever lies between them (the model's integers also stand for the quarter-valued float slots of the harness). -/
+theorem C14_eviction_fire (events : List Int) (slot e : Int) : e ∈ evFire events slot ↔ e ∈ events ∧ e ≤ slot :=
+  mem_evFire events slot e
 
-/-- Slot of a call. -/
-def EVOp.slot : EVOp → Nat
-  | .event s => s
-  | .evict s => s
+/-- Negative slots: an event registered for slot -3 before anything was evicted is triggered by `Evict(-1)`. -/
+example : (EV.init.run [.event (-3), .event 2, .evict (-1)]).trig = [-3] ∧
+    (EV.init.run [.event (-3), .event 2, .evict (-1)]).events = [2] := by
+  decide
 
-/-- Run with `evict`'s loop executed literally (`for i := start; i <= slot; i++ { probe; if i == slot { break } }`,
-`i++` wrapping around at `top`). -/
-def EV.runW (top : Nat) (s : EV) : List EVOp → EV
-  | [] => s
-  | op :: ops => EV.runW top (s.stepW top op).1 ops
+/-! ### The probing loop `evict` had before (witnesses about the code as it was) -/
 
-/-- **The repaired loop terminates for every slot of the type, the largest one included**, after exactly
-`slot - start + 1` iterations, and has collected the registered events of the slots `start … slot` in ascending order
-(what the abstract model `EV.step` triggers). -/
-theorem C14_eviction_loop_terminates (top : Nat) (events : List Nat) (start slot : Nat) (h1 : start ≤ slot) (h2 : slot ≤ top) :
-    evLoop top events slot (slot + 1 - start) start [] =
-      some ((List.range' start (slot + 1 - start)).filter (fun j => events.contains j)) := by
-  have := evLoop_spec top events slot h2 (slot + 1 - start) start [] (by omega) (by omega)
-  simpa using this
+/-- Witness (negative slots): the probing loop started at 0 before the first eviction, so `EvictionEvent(-3)` followed
+by `Evict(-1)` collected nothing — the event of slot -3 stayed untriggered although -3 ≤ -1 (replayed on the
+implementation: `ev new i8; ev event -3; ev evict -1`). -/
+theorem C14_eviction_old_negative_witness :
+    evFireOldProbe [-3] none 1 (-1) = [] ∧ (-3 : Int) ∈ evFire [-3] (-1) := by
+  refine ⟨by decide, ?_⟩
+  rw [C14_eviction_fire]; decide
 
-/-- Non-vacuity at the top of an 8-bit type: `Evict(255)` with `lastEvictedSlot = 250` and events registered for 253
-and 255. -/
-example : evLoop 255 [255, 253, 9] 255 (255 + 1 - 251) 251 [] = some [253, 255] := by decide
+/-- Witness (fractional float slots, counted in quarters: 6 = 1.5, 8 = 2.0, the loop steps by 4 = 1.0): the event of
+slot 1.5 is never probed by `Evict(2.0)`, neither before the first eviction nor after `Evict(0.0)`. -/
+theorem C14_eviction_old_fractional_witness :
+    evFireOldProbe [6] none 4 8 = [] ∧ evFireOldProbe [6] (some 0) 4 8 = [] ∧ (6 : Int) ∈ evFire [6] 8 := by
+  refine ⟨by decide, by decide, ?_⟩
+  rw [C14_eviction_fire]; decide
 
-/-- **Every history of calls with slots of the type behaves as the abstract model** — so `C14_eviction`,
-`C14_eviction_unique` and `C14_eviction_pre` hold for the model with the literal loop on every slot type. -/
-theorem C14_eviction_width (top : Nat) (ops : List EVOp) (h : ∀ op ∈ ops, op.slot ≤ top) (s : EV) :
-    EV.runW top s ops = s.run ops := by
-  induction ops generalizing s with
-  | nil => rfl
-  | cons op ops ih =>
-    have hop : s.stepW top op = s.step op := by
-      apply EV.stepW_eq
-      intro slot he
-      have := h op (by simp)
-      simpa [he, EVOp.slot] using this
-    simp only [EV.runW, EV.run, hop]
-    exact ih (fun o ho => h o (by simp [ho])) _
-
-example : ∀ op ∈ [EVOp.event 255, .evict 254, .event 255, .evict 255], op.slot ≤ 255 := by decide
-
-theorem C14_eviction_width_triggered (top : Nat) (ops : List EVOp) (h : ∀ op ∈ ops, op.slot ≤ top) (slot : Nat)
-    (hh : slot ∈ (EV.runW top EV.init ops).handed) :
-    slot ∈ (EV.runW top EV.init ops).trig ↔ (EV.runW top EV.init ops).evicted slot = true := by
-  rw [C14_eviction_width top ops h] at hh ⊢
-  exact C14_eviction ops slot hh
+/-- The probing loop did find integral slots above the last evicted one (what the old tests exercised). -/
+example : evFireOldProbe [12, 6, 4] (some 0) 4 12 = [12, 4] := by decide
 
 /-- Witness about the loop as it was (`for i := start; i <= slot; i++` without the `break`): with `slot` the largest
 value of the slot type it never exits — for every amount of fuel it is still running, from every value of the type
@@ -512,12 +493,12 @@ WaitGroup touches its atomic counter.  A change of that structure breaks these o
 section Skeletons
 open Hive.Gen.C14Skel
 
-/-- sortedSet.deleteSorted (sorted_set_impl.go:128) -/
+/-- sortedSet.deleteSorted (sorted_set_impl.go:139) -/
 theorem C14_skeleton_sortedSet_deleteSorted : skel_sortedSet_deleteSorted = [
-  "defer func{", "if{", "}if", "}func", "lock s.mutex", "defer unlock s.mutex", "if{", "for{", "}for",
-  "if{", "if{", "call s.heaviestElement.Set", "}else{", "call s.heaviestElement.Set", "}if", "}if",
-  "if{", "if{", "call s.lightestElement.Set", "}else{", "call s.lightestElement.Set", "}if", "}if",
-  "}if"] := by decide
+  "defer func{", "if{", "}if", "}func", "lock s.mutex", "defer unlock s.mutex",
+  "call s.elements.DeleteAndReturn", "if{", "for{", "}for", "if{", "if{", "call s.heaviestElement.Set",
+  "}else{", "call s.heaviestElement.Set", "}if", "}if", "if{", "if{", "call s.lightestElement.Set",
+  "}else{", "call s.lightestElement.Set", "}if", "}if", "}if"] := by decide
 
 /-- sortedSet.Ascending (sorted_set_impl.go:58) -/
 theorem C14_skeleton_sortedSet_Ascending : skel_sortedSet_Ascending = [
@@ -561,10 +542,11 @@ theorem C14_skeleton_waitGroup_Done : skel_waitGroup_Done = [
 theorem C14_skeleton_evictionState_Evict : skel_evictionState_Evict = [
   "helper evict", "for{", "call slotEvictedEvent.Trigger", "}for"] := by decide
 
-/-- evictionState.evict (eviction_state_impl.go:59) -/
+/-- evictionState.evict (eviction_state_impl.go:60) -/
 theorem C14_skeleton_evictionState_evict : skel_evictionState_evict = [
-  "lock e.mutex", "defer unlock e.mutex", "if{", "return", "}if", "if{", "}else{", "}if", "for{",
-  "call e.evictionEvents.Get", "if{", "call e.evictionEvents.Delete", "}if", "if{", "break", "}if", "}for", "return"] := by decide
+  "lock e.mutex", "defer unlock e.mutex", "if{", "return", "}if", "func{", "if{", "}if", "return",
+  "}func", "call e.evictionEvents.ForEachKey", "func{", "return", "}func", "for{",
+  "call e.evictionEvents.DeleteAndReturn", "if{", "}if", "}for", "return"] := by decide
 
 /-- derivedSet.inheritMutations (set_impl.go:304) -/
 theorem C14_skeleton_derivedSet_inheritMutations : skel_derivedSet_inheritMutations = [
